@@ -610,6 +610,8 @@ func init() {
 									s.OK(key, pos, "outside input-dependent loops")
 								case f == bp && len(ls) == 1:
 									s.OK(key, pos, "inside the main loop only: governed by SM-onevisit")
+								case func() bool { ok, _ := searchNextLoop(c, ul); return ok }():
+									s.OK(key, pos, "the search helper of a search-next loop: each call resumes behind the previous match, the scans add up to one pass")
 								default:
 									s.Bad(key, pos, "O(remaining input) helper ("+why+") called from an inner loop whose trip count depends on the input")
 								}
@@ -805,6 +807,12 @@ func init() {
 					}
 					sort.Strings(els)
 					key := fmt.Sprintf("nested/%s/loop over %s", core.FuncName(f), strings.Join(els, ","))
+					// `for i := find(xs, 0); i >= 0; i = find(xs, i+1)`: each call resumes behind the previous match, the scans
+					// add up to one pass over the collection
+					if ok, why := searchNextLoop(c, l); ok {
+						s.OK(key, c.P.Pos(f.Pos()), "search-next loop: "+why+" (the scans add up to one pass)")
+						continue
+					}
 					bad := ""
 					var pos token.Pos = f.Pos()
 					for b := range l.Blocks {
